@@ -132,6 +132,16 @@ func generate() []session {
 		out[len(out)-1].Proto = "mcast"
 	}
 
+	// 2c. a server that answers RECORD and then stops reading: the client's writer blocks in a
+	// write while PAUSE / Close are called
+	for k := 0; k < 8; k++ {
+		for _, tlsOn := range []bool{false, true} {
+			add("record-stall", []mutation{{Method: "RECORD", Nth: 0, Kind: "stall-after", Arg: "4000"}})
+			out[len(out)-1].Proto = "tcp"
+			out[len(out)-1].TLS = tlsOn
+		}
+	}
+
 	// 3. sampled pairs of mutations
 	n := run.Pick(150, 8000)
 	for i := 0; i < n; i++ {
